@@ -1,5 +1,754 @@
 //! Translator targets owned by property C10.
-#[allow(unused_imports)]
-use super::{Gen, Target};
+//!
+//! `c10builtins` → `Generated/C10Builtins.lean`:
+//!  * the argument-validating **bindings** of `src/runtime/basic.rs` (bodies of
+//!    the `fn`s inside `library! { impl T { … } }`), transliterated:
+//!    `StringBytes/Chars/Lines.{len,get,slice}`, `String.{repeat,splitn,rsplitn}`,
+//!    `Prefix.new`, `List.swap`, and the index conversion of `list_get`;
+//!  * the methods of `src/value/string.rs` they call (`StringBytes::get/slice`,
+//!    `StringChars::get/slice`, `StringLines::get`, `len`s, `RotoString::repeat/
+//!    splitn/rsplitn`) and the bounds logic of `RawList::get/swap/offset_of`
+//!    (`src/value/list.rs`);
+//!  * a **panic-surface table**: for *every* `fn` of every `impl` block inside
+//!    basic.rs's `library!` invocations, and for every method of string.rs,
+//!    the syntactic constructs that can panic (`unwrap`, `expect`, indexing,
+//!    panic macros, integer arithmetic) — as an enum + function, so that a
+//!    theorem can say "only `Prefix.new` unwraps".
+//!
+//! Constructs beyond r2l's subset are handled here (never silently): the `?`
+//! operator on `Option` at `let` level, `it.nth(n)?` on a named iterator,
+//! closures in `and_then`/`map`, `s.get(a..b)`, `&s[a..b]`.
 
-pub const TARGETS: &[Target] = &[];
+use super::Target;
+use crate::find;
+use crate::r2l::{lean_ident, Cx, Meth};
+use crate::targets::scalar::ExprReplacer;
+use crate::{footer, header};
+use proc_macro2::{Delimiter, TokenStream, TokenTree};
+use quote::ToTokens;
+use std::cell::RefCell;
+use std::collections::{BTreeMap, HashSet};
+use std::path::Path;
+use syn::visit::Visit;
+use syn::visit_mut::VisitMut;
+use syn::{Expr, Pat, Stmt};
+
+pub const TARGETS: &[Target] = &[("c10builtins", "C10Builtins", c10builtins as super::Gen)];
+
+type R = Result<String, String>;
+
+// ------------------------------------------------------------ library! parsing
+
+#[derive(Clone)]
+struct LibFn {
+    impl_ty: String,
+    name: String,
+    params: Vec<(String, String)>, // (name, rust type text); receiver is ("self", "Self")
+    ret: String,
+    body: syn::Block,
+}
+
+fn ts_string(ts: &[TokenTree]) -> String {
+    ts.iter().map(|t| t.to_string()).collect::<Vec<_>>().join("").replace(' ', "")
+}
+
+fn parse_impl_items(ty: &str, ts: TokenStream, out: &mut Vec<LibFn>) -> Result<(), String> {
+    let toks: Vec<TokenTree> = ts.into_iter().collect();
+    let mut i = 0;
+    while i < toks.len() {
+        match &toks[i] {
+            TokenTree::Ident(id) if id == "fn" => {
+                let name = match toks.get(i + 1) {
+                    Some(TokenTree::Ident(n)) => n.to_string(),
+                    _ => return Err(format!("impl {ty}: fn without a name")),
+                };
+                let params_g = match toks.get(i + 2) {
+                    Some(TokenTree::Group(g)) if g.delimiter() == Delimiter::Parenthesis => g.clone(),
+                    _ => return Err(format!("impl {ty}: fn {name} without a parameter list")),
+                };
+                let mut k = i + 3;
+                let mut ret = vec![];
+                let body_g = loop {
+                    match toks.get(k) {
+                        Some(TokenTree::Group(g)) if g.delimiter() == Delimiter::Brace => break g.clone(),
+                        Some(t) => {
+                            ret.push(t.clone());
+                            k += 1;
+                        }
+                        None => return Err(format!("impl {ty}: fn {name} without a body")),
+                    }
+                };
+                let body: syn::Block = syn::parse2(TokenTree::Group(body_g).into())
+                    .map_err(|e| format!("impl {ty}: body of {name} does not parse: {e}"))?;
+                let mut params = vec![];
+                // split the parameter list at top-level commas
+                let mut cur: Vec<TokenTree> = vec![];
+                let mut flush = |cur: &mut Vec<TokenTree>| {
+                    if cur.is_empty() {
+                        return;
+                    }
+                    let txt = ts_string(cur);
+                    if txt == "self" || txt == "&self" || txt == "mutself" {
+                        params.push(("self".to_string(), "Self".to_string()));
+                    } else if let Some((n, t)) = txt.split_once(':') {
+                        params.push((n.trim_start_matches("mut").to_string(), t.to_string()));
+                    } else {
+                        params.push((txt, "?".to_string()));
+                    }
+                    cur.clear();
+                };
+                let mut depth = 0i32;
+                for t in params_g.stream() {
+                    match &t {
+                        TokenTree::Punct(p) if p.as_char() == '<' => depth += 1,
+                        TokenTree::Punct(p) if p.as_char() == '>' => depth -= 1,
+                        TokenTree::Punct(p) if p.as_char() == ',' && depth == 0 => {
+                            flush(&mut cur);
+                            continue;
+                        }
+                        _ => {}
+                    }
+                    cur.push(t);
+                }
+                flush(&mut cur);
+                let ret = ts_string(&ret);
+                let ret = ret.strip_prefix("->").unwrap_or(&ret).to_string();
+                out.push(LibFn { impl_ty: ty.to_string(), name, params, ret, body });
+                i = k + 1;
+            }
+            _ => i += 1,
+        }
+    }
+    Ok(())
+}
+
+/// Every `impl <Ty> { … }` inside a token stream (recursively through groups).
+fn collect_impls(ts: TokenStream, ctx: &str, out: &mut Vec<LibFn>) -> Result<(), String> {
+    let toks: Vec<TokenTree> = ts.into_iter().collect();
+    let mut i = 0;
+    while i < toks.len() {
+        match &toks[i] {
+            TokenTree::Ident(id) if id == "impl" => {
+                let mut k = i + 1;
+                let mut ty = vec![];
+                let mut found = None;
+                while let Some(t) = toks.get(k) {
+                    if let TokenTree::Group(g) = t {
+                        if g.delimiter() == Delimiter::Brace {
+                            found = Some(g.clone());
+                            break;
+                        }
+                    }
+                    ty.push(t.clone());
+                    k += 1;
+                }
+                if let Some(g) = found {
+                    let mut name = ts_string(&ty);
+                    if name.contains('$') {
+                        name = format!("{ctx}_{}", name.replace('$', ""));
+                    }
+                    parse_impl_items(&name, g.stream(), out)?;
+                    i = k + 1;
+                } else {
+                    i += 1;
+                }
+            }
+            TokenTree::Group(g) => {
+                collect_impls(g.stream(), ctx, out)?;
+                i += 1;
+            }
+            _ => i += 1,
+        }
+    }
+    Ok(())
+}
+
+fn library_fns(file: &syn::File) -> Result<Vec<LibFn>, String> {
+    struct V(Vec<(String, TokenStream)>);
+    impl<'ast> Visit<'ast> for V {
+        fn visit_item_macro(&mut self, m: &'ast syn::ItemMacro) {
+            let ctx = m.ident.as_ref().map(|i| i.to_string()).unwrap_or_default();
+            self.0.push((ctx, m.mac.tokens.clone()));
+        }
+        fn visit_macro(&mut self, m: &'ast syn::Macro) {
+            self.0.push((String::new(), m.tokens.clone()));
+        }
+    }
+    let mut v = V(vec![]);
+    v.visit_file(file);
+    let mut out = vec![];
+    for (ctx, ts) in v.0 {
+        collect_impls(ts, &ctx, &mut out)?;
+    }
+    Ok(out)
+}
+
+// ------------------------------------------------------------- panic surface
+
+#[derive(Default)]
+struct Surface(Vec<&'static str>);
+impl<'ast> Visit<'ast> for Surface {
+    fn visit_expr_method_call(&mut self, m: &'ast syn::ExprMethodCall) {
+        match m.method.to_string().as_str() {
+            "unwrap" | "unwrap_err" | "unwrap_unchecked" => self.0.push("unwrap"),
+            "expect" | "expect_err" => self.0.push("expect"),
+            _ => {}
+        }
+        syn::visit::visit_expr_method_call(self, m);
+    }
+    fn visit_expr_index(&mut self, i: &'ast syn::ExprIndex) {
+        self.0.push("index");
+        syn::visit::visit_expr_index(self, i);
+    }
+    fn visit_macro(&mut self, m: &'ast syn::Macro) {
+        let n = m.path.segments.last().map(|s| s.ident.to_string()).unwrap_or_default();
+        if ["panic", "assert", "assert_eq", "assert_ne", "unreachable", "todo", "unimplemented", "ice"].contains(&n.as_str()) {
+            self.0.push("panic_macro");
+        }
+    }
+    fn visit_expr_binary(&mut self, b: &'ast syn::ExprBinary) {
+        use syn::BinOp::*;
+        if matches!(b.op, Add(_) | Sub(_) | Mul(_) | Div(_) | Rem(_) | Shl(_) | Shr(_) | AddAssign(_) | SubAssign(_)
+            | MulAssign(_) | DivAssign(_) | RemAssign(_) | ShlAssign(_) | ShrAssign(_)) {
+            self.0.push("arith");
+        }
+        syn::visit::visit_expr_binary(self, b);
+    }
+    fn visit_expr_cast(&mut self, c: &'ast syn::ExprCast) {
+        self.0.push("cast");
+        syn::visit::visit_expr_cast(self, c);
+    }
+    fn visit_expr_unsafe(&mut self, u: &'ast syn::ExprUnsafe) {
+        self.0.push("unsafe_");
+        syn::visit::visit_expr_unsafe(self, u);
+    }
+}
+
+fn surface_of(b: &syn::Block) -> Vec<&'static str> {
+    let mut s = Surface::default();
+    s.visit_block(b);
+    s.0
+}
+
+fn ctor_name(impl_ty: &str, f: &str) -> String {
+    let t: String = impl_ty.chars().map(|c| if c.is_alphanumeric() { c } else { '_' }).collect();
+    format!("{}_{}", t.trim_matches('_'), f)
+}
+
+fn surface_table(name: &str, fns: &[(String, Vec<&'static str>)]) -> String {
+    let mut out = format!("inductive {name} where\n");
+    for (c, _) in fns {
+        out.push_str(&format!("  | {c}\n"));
+    }
+    out.push_str("  deriving DecidableEq, Repr\n\n");
+    out.push_str(&format!("def {name}.all : List {name} := [{}]\n\n",
+        fns.iter().map(|(c, _)| format!(".{c}")).collect::<Vec<_>>().join(", ")));
+    out.push_str(&format!("def {name}.surface : {name} → List Risk\n"));
+    for (c, r) in fns {
+        out.push_str(&format!("  | .{c} => [{}]\n", r.iter().map(|x| format!(".{x}")).collect::<Vec<_>>().join(", ")));
+    }
+    out.push('\n');
+    out
+}
+
+// ------------------------------------------------------------------ the walker
+
+struct W {
+    cx: RefCell<Cx>,
+    /// generated functions callable as methods on `self`: (impl, method) ↦ Lean name
+    self_methods: BTreeMap<String, String>,
+    counter: RefCell<usize>,
+}
+
+impl W {
+    fn placeholder(&self, lean: String) -> Expr {
+        let mut n = self.counter.borrow_mut();
+        *n += 1;
+        let id = format!("lean__ph{}", *n);
+        self.cx.borrow_mut().paths.insert(id.clone(), lean);
+        syn::parse_str::<Expr>(&id).unwrap()
+    }
+
+    fn v(&self, e: &Expr) -> R {
+        let mut e = e.clone();
+        let mut err = None;
+        Pre { w: self, err: &mut err }.visit_expr_mut(&mut e);
+        if let Some(x) = err {
+            return Err(x);
+        }
+        let r = self.cx.borrow().v(&e);
+        r
+    }
+
+    fn pat(&self, p: &Pat) -> R {
+        self.cx.borrow().pat(p)
+    }
+
+    fn block(&self, stmts: &[Stmt]) -> R {
+        if stmts.is_empty() {
+            return Ok("(pure ())".into());
+        }
+        let (first, rest) = stmts.split_first().unwrap();
+        match first {
+            Stmt::Local(l) => {
+                let init = l.init.as_ref().ok_or("unsupported: let without initialiser")?;
+                if init.diverge.is_some() {
+                    return Err("unsupported: let-else".into());
+                }
+                let pat_inner = match &l.pat {
+                    Pat::Type(pt) => &*pt.pat,
+                    p => p,
+                };
+                let pat = self.pat(pat_inner)?;
+                let rest_s = self.block(rest)?;
+                if let Expr::Try(t) = &*init.expr {
+                    // `let x = it.nth(n)?;` on a named iterator
+                    if let Expr::MethodCall(mc) = &*t.expr {
+                        if mc.method == "nth" || mc.method == "next" {
+                            if let Expr::Path(p) = &*mc.receiver {
+                                let it = lean_ident(&p.to_token_stream().to_string());
+                                let n = match mc.args.first() {
+                                    Some(a) => self.v(a)?,
+                                    None => "(0 : Nat)".into(),
+                                };
+                                return Ok(format!("(RIter.nthQ {it} {n} (fun {pat} {it} =>\n {rest_s}))"));
+                            }
+                        }
+                    }
+                    let val = self.v(&t.expr)?;
+                    if val.contains('←') {
+                        return Ok(format!("(do RQ.bind {val} (fun {pat} =>\n {rest_s}))"));
+                    }
+                    return Ok(format!("(RQ.bind {val} (fun {pat} =>\n {rest_s}))"));
+                }
+                let val = self.v(&init.expr)?;
+                if matches!(pat_inner, Pat::Ident(_) | Pat::Wild(_)) {
+                    Ok(format!("(do\n let {pat} := {val}\n {rest_s})"))
+                } else {
+                    Ok(format!("(do match {val} with\n | {pat} => {rest_s})"))
+                }
+            }
+            Stmt::Expr(Expr::If(i), _) if !rest.is_empty() => {
+                if i.else_branch.is_some() || !crate::r2l::diverges(&i.then_branch.stmts) {
+                    return Err("unsupported: non-diverging `if` statement".into());
+                }
+                let then = self.block(&i.then_branch.stmts)?;
+                let els = self.block(rest)?;
+                self.if_(&i.cond, then, els)
+            }
+            Stmt::Expr(e, semi) if rest.is_empty() => {
+                if semi.is_some() && !matches!(e, Expr::Return(_)) {
+                    // `f(x);` as the last statement of a unit function
+                    let v = self.v(e)?;
+                    return Ok(format!("(do\n let _ := {v}\n pure ())"));
+                }
+                self.tail(e)
+            }
+            other => Err(format!("unsupported statement: {}", other.to_token_stream())),
+        }
+    }
+
+    fn if_(&self, cond: &Expr, then: String, els: String) -> R {
+        if let Expr::Let(l) = cond {
+            let scrut = self.v(&l.expr)?;
+            let pat = self.pat(&l.pat)?;
+            Ok(format!("(do match {scrut} with\n | {pat} => {then}\n | _ => {els})"))
+        } else {
+            let c = self.v(cond)?;
+            Ok(format!("(do if {c} then {then} else {els})"))
+        }
+    }
+
+    fn tail(&self, e: &Expr) -> R {
+        match e {
+            Expr::Return(r) => match &r.expr {
+                Some(x) => self.tail(x),
+                None => Ok("(pure ())".into()),
+            },
+            Expr::Block(b) => self.block(&b.block.stmts),
+            Expr::Paren(p) => self.tail(&p.expr),
+            Expr::If(i) => {
+                let then = self.block(&i.then_branch.stmts)?;
+                let els = match &i.else_branch {
+                    Some((_, e)) => self.tail(e)?,
+                    None => "(pure ())".into(),
+                };
+                self.if_(&i.cond, then, els)
+            }
+            other => Ok(format!("(do pure {})", self.v(other)?)),
+        }
+    }
+}
+
+/// Rewrites the shapes r2l does not know into placeholders with a fixed Lean text.
+struct Pre<'a> {
+    w: &'a W,
+    err: &'a mut Option<String>,
+}
+
+impl Pre<'_> {
+    fn closure1(&mut self, e: &Expr) -> Option<(String, String)> {
+        if let Expr::Closure(c) = e {
+            if c.inputs.len() == 1 {
+                let p = match self.w.pat(&c.inputs[0]) {
+                    Ok(p) => p,
+                    Err(x) => {
+                        *self.err = Some(x);
+                        return None;
+                    }
+                };
+                match self.w.cx.borrow().v(&c.body) {
+                    Ok(b) => return Some((p, b)),
+                    Err(x) => {
+                        *self.err = Some(x);
+                        return None;
+                    }
+                }
+            }
+        }
+        None
+    }
+    fn lean(&mut self, e: &Expr) -> String {
+        match self.w.cx.borrow().v(e) {
+            Ok(s) => s,
+            Err(x) => {
+                *self.err = Some(x);
+                String::new()
+            }
+        }
+    }
+}
+
+impl VisitMut for Pre<'_> {
+    fn visit_expr_mut(&mut self, e: &mut Expr) {
+        // children first
+        syn::visit_mut::visit_expr_mut(self, e);
+        if self.err.is_some() {
+            return;
+        }
+        let new: Option<Expr> = match e {
+            Expr::Try(_) => {
+                *self.err = Some("unsupported: `?` below statement level".into());
+                None
+            }
+            Expr::Index(ix) => match &*ix.index {
+                Expr::Range(r) => {
+                    let recv = self.lean(&ix.expr);
+                    match (&r.start, &r.end) {
+                        (Some(a), Some(b)) if matches!(r.limits, syn::RangeLimits::HalfOpen(_)) => {
+                            let (a, b) = (self.lean(a), self.lean(b));
+                            Some(self.w.placeholder(format!("(← Str.index_range {recv} {a} {b})")))
+                        }
+                        (Some(a), None) => {
+                            let a = self.lean(a);
+                            Some(self.w.placeholder(format!("(← Str.index_from {recv} {a})")))
+                        }
+                        _ => {
+                            *self.err = Some("unsupported range form in an index expression".into());
+                            None
+                        }
+                    }
+                }
+                _ => {
+                    *self.err = Some("unsupported: non-range index expression".into());
+                    None
+                }
+            },
+            Expr::MethodCall(mc) => {
+                let name = mc.method.to_string();
+                let recv_txt = mc.receiver.to_token_stream().to_string().replace(' ', "");
+                let args: Vec<Expr> = mc.args.iter().cloned().collect();
+                if name == "get" && args.len() == 1 && matches!(args[0], Expr::Range(_)) {
+                    let Expr::Range(r) = &args[0] else { unreachable!() };
+                    let recv = self.lean(&mc.receiver);
+                    match (&r.start, &r.end) {
+                        (Some(a), Some(b)) if matches!(r.limits, syn::RangeLimits::HalfOpen(_)) => {
+                            let (a, b) = (self.lean(a), self.lean(b));
+                            Some(self.w.placeholder(format!("(Str.get_range {recv} {a} {b})")))
+                        }
+                        (Some(a), None) => {
+                            let a = self.lean(a);
+                            Some(self.w.placeholder(format!("(Str.get_from {recv} {a})")))
+                        }
+                        _ => {
+                            *self.err = Some("unsupported range form in `get`".into());
+                            None
+                        }
+                    }
+                } else if (name == "and_then" || name == "map") && args.len() == 1 {
+                    if let Some((p, b)) = self.closure1(&args[0]) {
+                        let recv = self.lean(&mc.receiver);
+                        if b.contains('←') {
+                            if name == "and_then" {
+                                Some(self.w.placeholder(format!("(← RQ.bind {recv} (fun {p} => (do pure {b})))")))
+                            } else {
+                                *self.err = Some("unsupported: fallible closure in `map`".into());
+                                None
+                            }
+                        } else if name == "and_then" {
+                            Some(self.w.placeholder(format!("(Option.bind {recv} (fun {p} => {b}))")))
+                        } else {
+                            Some(self.w.placeholder(format!("(Option.map (fun {p} => {b}) {recv})")))
+                        }
+                    } else if self.err.is_none()
+                        && args[0].to_token_stream().to_string().replace(' ', "") == "Into::into"
+                    {
+                        Some((*mc.receiver).clone())
+                    } else {
+                        None
+                    }
+                } else if recv_txt == "self" || recv_txt == "this" {
+                    if let Some(f) = self.w.self_methods.get(&name).cloned() {
+                        let recv = self.lean(&mc.receiver);
+                        let a: Vec<String> = args.iter().map(|x| self.lean(x)).collect();
+                        let a = if a.is_empty() { String::new() } else { format!(" {}", a.join(" ")) };
+                        Some(self.w.placeholder(format!("(← {f} dbg {recv}{a})")))
+                    } else {
+                        None
+                    }
+                } else {
+                    None
+                }
+            }
+            _ => None,
+        };
+        if let Some(n) = new {
+            *e = n;
+        }
+    }
+}
+
+// ----------------------------------------------------------------- the target
+
+fn base_cx() -> Cx {
+    let mut cx = Cx::default();
+    cx.types.insert("usize".into(), "USz".into());
+    cx.paths.insert("self".into(), "self_".into());
+    cx.methods.insert("ok".into(), Meth::Identity);
+    cx.methods.insert("try_into".into(), Meth::Pure("RInt.try_into".into()));
+    cx.methods.insert("checked_sub".into(), Meth::Pure("RInt.checked_sub".into()));
+    cx.methods.insert("unwrap".into(), Meth::Fallible("ROpt.unwrap".into()));
+    cx.methods.insert("expect".into(), Meth::Fallible("ROpt.unwrap".into()));
+    cx.methods.insert("chars".into(), Meth::Identity);
+    cx.methods.insert("next".into(), Meth::Pure("Str.next_char".into()));
+    cx.methods.insert("nth".into(), Meth::Pure("Str.nth_char".into()));
+    cx.methods.insert("len".into(), Meth::Pure("Str.len".into()));
+    cx.methods.insert("count".into(), Meth::Pure("RCount.count".into()));
+    cx.methods.insert("lines".into(), Meth::Pure("Str.lines".into()));
+    cx.methods.insert("repeat".into(), Meth::Pure("Str.repeat".into()));
+    cx.methods.insert("splitn".into(), Meth::Pure("Str.splitn".into()));
+    cx.methods.insert("rsplitn".into(), Meth::Pure("Str.rsplitn".into()));
+    cx.methods.insert("collect".into(), Meth::Identity);
+    cx.paths.insert("Prefix::new_relaxed".into(), "Prefix.new_relaxed".into());
+    cx
+}
+
+/// One generated function: binders, return type, translated body.
+fn emit(w: &W, lean_name: &str, binders: &str, ret: &str, block: &syn::Block) -> R {
+    let body = w.block(&block.stmts).map_err(|e| format!("{lean_name}: {e}"))?;
+    Ok(format!("def {lean_name} (dbg : Bool) {binders} : Res ({ret}) :=\n {body}\n\n"))
+}
+
+fn replace(block: &mut syn::Block, pairs: &[(&str, &str)], require: &[(&str, usize)], who: &str) -> Result<(), String> {
+    let mut rp = ExprReplacer::new(pairs);
+    rp.visit_block_mut(block);
+    for (k, n) in require {
+        rp.require(k, *n).map_err(|e| format!("{who}: {e}"))?;
+    }
+    Ok(())
+}
+
+pub fn c10builtins(repo: &Path) -> Result<String, String> {
+    let basic = find::parse(repo, "src/runtime/basic.rs")?;
+    let string = find::parse(repo, "src/value/string.rs")?;
+    let list = find::parse(repo, "src/value/list.rs")?;
+    let mut out = header("C10Builtins", &["src/runtime/basic.rs", "src/value/string.rs", "src/value/list.rs"])
+        .replace("import RotoV.Model.Clif\n", "import RotoV.Model.Clif\nimport RotoV.Model.Builtins\n");
+    out.push_str("variable [Target]\n\n");
+    out.push_str("class RCount (α : Type) where\n  count : α → USz\ninstance : RCount Str := ⟨Str.count_chars⟩\ninstance : RCount (List Str) := ⟨fun l => RInt.ofInt _ _ l.length⟩\n\n");
+
+    // ---------------------------------------------------- src/value/string.rs
+    let mut w = W { cx: RefCell::new(base_cx()), self_methods: BTreeMap::new(), counter: RefCell::new(0) };
+    let s0 = [("self.0.0", "s")];
+    let str_fns: [(&str, &str, &str, &str, &str); 8] = [
+        ("StringBytes", "len", "StringBytes_len", "(s : Str)", "USz"),
+        ("StringBytes", "get", "StringBytes_get", "(s : Str) (idx : USz)", "Option Char"),
+        ("StringBytes", "slice", "StringBytes_slice", "(s : Str) (i j : USz)", "Option Str"),
+        ("StringChars", "len", "StringChars_len", "(s : Str)", "USz"),
+        ("StringChars", "get", "StringChars_get", "(s : Str) (idx : USz)", "Option Char"),
+        ("StringLines", "len", "StringLines_len", "(s : Str)", "USz"),
+        ("StringLines", "get", "StringLines_get", "(s : Str) (idx : USz)", "Option Char"),
+        ("RotoString", "repeat", "RotoString_repeat", "(s : Str) (n : USz)", "Lim Str"),
+    ];
+    for (imp, f, lean, binders, ret) in str_fns {
+        let mut fb = find::func(&string, f, Some(imp))?;
+        replace(&mut fb.block, &s0, &[("self.0.0", 1)], lean)?;
+        out.push_str(&emit(&w, lean, binders, ret, &fb.block)?);
+    }
+    for (f, lean) in [("splitn", "RotoString_splitn"), ("rsplitn", "RotoString_rsplitn")] {
+        let mut fb = find::func(&string, f, Some("RotoString"))?;
+        let from = format!("self.0.0.{f}(n, separator).map(Into::into).collect()");
+        let to = format!("s.{f}(n, separator)");
+        replace(&mut fb.block, &[(&from, &to)], &[(&from, 1)], lean)?;
+        out.push_str(&emit(&w, lean, "(s : Str) (n : USz) (separator : Str)", "List Str", &fb.block)?);
+    }
+    {
+        // StringChars::slice: the iterator expression is named, the rest is transliterated
+        let mut fb = find::func(&string, "slice", Some("StringChars"))?;
+        let it = "self.0.0.char_indices().map(|(byte, _)| byte).chain(std::iter::once(self.0.0.len()))";
+        replace(&mut fb.block, &[(it, "str_boundary_iter(s)"), ("\"\".into()", "str_empty"), ("self.0.0", "s")],
+            &[(it, 1), ("self.0.0", 1)], "StringChars_slice")?;
+        w.cx.borrow_mut().paths.insert("str_boundary_iter".into(), "Str.boundary_iter".into());
+        w.cx.borrow_mut().paths.insert("str_empty".into(), "Str.empty".into());
+        out.push_str(&emit(&w, "StringChars_slice", "(s : Str) (i j : USz)", "Option Str", &fb.block)?);
+    }
+    {
+        // StringLines::slice has two `for` loops over one iterator: hand-modelled
+        // (`StringLines_slice_model`); its validation prefix is still tied here.
+        let fb = find::func(&string, "slice", Some("StringLines"))?;
+        let first = fb.block.stmts.first().map(|s| s.to_token_stream().to_string().replace(' ', "")).unwrap_or_default();
+        if first != "letnum=j.checked_sub(i)?;" {
+            return Err(format!("StringLines::slice: expected `let num = j.checked_sub(i)?;` first, found `{first}`"));
+        }
+        let idx: Vec<String> = {
+            struct Ix(Vec<String>);
+            impl<'ast> Visit<'ast> for Ix {
+                fn visit_expr_index(&mut self, i: &'ast syn::ExprIndex) {
+                    self.0.push(i.to_token_stream().to_string().replace(' ', ""));
+                }
+            }
+            let mut v = Ix(vec![]);
+            v.visit_block(&fb.block);
+            v.0
+        };
+        if idx != ["self.0.0[start_idx..end_idx]"] {
+            return Err(format!("StringLines::slice: index expressions changed: {idx:?}"));
+        }
+        let loops = fb.block.stmts.iter().filter(|s| matches!(s, Stmt::Expr(Expr::ForLoop(_), _))).count();
+        if loops != 2 {
+            return Err(format!("StringLines::slice: expected two for loops, found {loops}"));
+        }
+        out.push_str("def StringLines_slice (dbg : Bool) (s : Str) (i j : USz) : Res (Option Str) :=\n StringLines_slice_model s i j\n\n");
+    }
+
+    // ------------------------------------------------------ src/value/list.rs
+    {
+        let mut w2 = W { cx: RefCell::new(base_cx()), self_methods: BTreeMap::new(), counter: RefCell::new(0) };
+        let mut f = find::func(&list, "offset_of", Some("RawList"))?;
+        replace(&mut f.block, &[("self.vtable.size()", "self.size")], &[("self.vtable.size()", 1)], "RawList_offset_of")?;
+        out.push_str(&emit(&w2, "RawList_offset_of", "(self_ : RawListS) (n : USz)", "USz", &f.block)?);
+        w2.self_methods.insert("offset_of".into(), "RawList_offset_of".into());
+        // get: bounds check + offset; the pointer arithmetic that follows is outside the model
+        let f = find::func(&list, "get", Some("RawList"))?;
+        let mut stmts: Vec<Stmt> = f.block.stmts.iter().take(2).cloned().collect();
+        let txt: Vec<String> = stmts.iter().map(|s| s.to_token_stream().to_string().replace(' ', "")).collect();
+        if txt.len() != 2 || !txt[1].starts_with("letoffset=self.offset_of(idx)") {
+            return Err(format!("RawList::get: unexpected shape: {txt:?}"));
+        }
+        stmts.push(syn::parse_str::<Stmt>("return Some(offset);").unwrap());
+        out.push_str(&emit(&w2, "RawList_get", "(self_ : RawListS) (idx : USz)", "Option USz", &syn::Block { brace_token: Default::default(), stmts })?);
+        // swap: the two bounds checks, the i == j check, the two offsets
+        let f = find::func(&list, "swap", Some("RawList"))?;
+        let mut stmts: Vec<Stmt> = f.block.stmts.iter().take(4).cloned().collect();
+        let txt: Vec<String> = stmts.iter().map(|s| s.to_token_stream().to_string().replace(' ', "")).collect();
+        if txt.len() != 4 || !txt[2].starts_with("leti=self.offset_of(i)") || !txt[3].starts_with("letj=self.offset_of(j)") {
+            return Err(format!("RawList::swap: unexpected shape: {txt:?}"));
+        }
+        let mut blk = syn::Block { brace_token: Default::default(), stmts: std::mem::take(&mut stmts) };
+        replace(&mut blk, &[("return", "return None")], &[("return", 2)], "RawList_swap")?;
+        blk.stmts.push(syn::parse_str::<Stmt>("return Some((i, j));").unwrap());
+        out.push_str(&emit(&w2, "RawList_swap", "(self_ : RawListS) (i j : USz)", "Option (USz × USz)", &blk)?);
+        // list_get: `let idx = idx.try_into().ok(); match idx.and_then(|idx| this.get(idx)) { … }`
+        let f = find::func(&list, "list_get", None)?;
+        let first = f.block.stmts.first().ok_or("list_get: empty")?.clone();
+        let scrut = match f.block.stmts.get(1) {
+            Some(Stmt::Expr(Expr::Match(m), _)) => (*m.expr).clone(),
+            _ => return Err("list_get: expected `match idx.and_then(..)` as second statement".into()),
+        };
+        w2.self_methods.insert("get".into(), "RawList_get".into());
+        let blk = syn::Block { brace_token: Default::default(), stmts: vec![first, Stmt::Expr(scrut, None)] };
+        out.push_str(&emit(&w2, "list_get_lookup", "(this : RawListS) (idx : U64)", "Option USz", &blk)?);
+        // ErasedList::swap binding (`self.swap(i as usize, j as usize)`) is emitted below with the bindings
+    }
+
+    // ------------------------------------------------ src/runtime/basic.rs
+    let fns = library_fns(&basic)?;
+    let find_fn = |imp: &str, name: &str| -> Result<LibFn, String> {
+        let hits: Vec<&LibFn> = fns.iter().filter(|f| f.impl_ty == imp && f.name == name).collect();
+        match hits.len() {
+            1 => Ok(hits[0].clone()),
+            n => Err(format!("binding {imp}.{name}: {n} definitions found in library! blocks")),
+        }
+    };
+    let bindings: [(&str, &str, &str, &str, &str, &[(&str, &str)]); 14] = [
+        ("StringBytes", "len", "(self_ : Str)", "U64", "StringBytes", &[("len", "StringBytes_len")]),
+        ("StringBytes", "get", "(self_ : Str) (idx : U64)", "Option Char", "StringBytes", &[("get", "StringBytes_get")]),
+        ("StringBytes", "slice", "(self_ : Str) (start end_ : U64)", "Option Str", "StringBytes", &[("slice", "StringBytes_slice")]),
+        ("StringChars", "len", "(self_ : Str)", "U64", "StringChars", &[("len", "StringChars_len")]),
+        ("StringChars", "get", "(self_ : Str) (idx : U64)", "Option Char", "StringChars", &[("get", "StringChars_get")]),
+        ("StringChars", "slice", "(self_ : Str) (start end_ : U64)", "Option Str", "StringChars", &[("slice", "StringChars_slice")]),
+        ("StringLines", "len", "(self_ : Str)", "U64", "StringLines", &[("len", "StringLines_len")]),
+        ("StringLines", "get", "(self_ : Str) (idx : U64)", "Option Char", "StringLines", &[("get", "StringLines_get")]),
+        ("StringLines", "slice", "(self_ : Str) (start end_ : U64)", "Option Str", "StringLines", &[("slice", "StringLines_slice")]),
+        ("RotoString", "repeat", "(self_ : Str) (n : U64)", "Lim Str", "String", &[("repeat", "RotoString_repeat")]),
+        ("RotoString", "splitn", "(self_ : Str) (n : U64) (separator : Str)", "List Str", "String", &[("splitn", "RotoString_splitn")]),
+        ("RotoString", "rsplitn", "(self_ : Str) (n : U64) (separator : Str)", "List Str", "String", &[("rsplitn", "RotoString_rsplitn")]),
+        ("Prefix", "new", "(ip : IpAddr) (len : U8)", "Prefix", "Prefix", &[]),
+        ("ErasedList", "swap", "(self_ : RawListS) (i j : U64)", "Option (USz × USz)", "List", &[("swap", "RawList_swap")]),
+    ];
+    for (imp, name, binders, ret, _roto, methods) in bindings {
+        let f = find_fn(imp, name)?;
+        w.self_methods.clear();
+        for (m, l) in methods {
+            w.self_methods.insert(m.to_string(), l.to_string());
+        }
+        let mut blk = f.body.clone();
+        // `&separator` is handled by r2l (references are transparent)
+        if imp == "ErasedList" {
+            // `self.swap(i, j);` is the last statement of a unit function: keep its result
+            if let Some(Stmt::Expr(e, semi)) = blk.stmts.last_mut() {
+                let _ = e;
+                *semi = None;
+            }
+        }
+        out.push_str(&emit(&w, &format!("bind_{}_{}", imp, name), binders, ret, &blk)?);
+    }
+
+    // ------------------------------------------------------- panic surfaces
+    out.push_str("/-- syntactic constructs that can panic (or need care) inside a body -/\ninductive Risk where\n  | unwrap | expect | index | panic_macro | arith | cast | unsafe_\n  deriving DecidableEq, Repr\n\n");
+    let mut seen = HashSet::new();
+    let mut tab = vec![];
+    for f in &fns {
+        let mut c = ctor_name(&f.impl_ty, &f.name);
+        while !seen.insert(c.clone()) {
+            c.push('\'');
+        }
+        tab.push((c, surface_of(&f.body)));
+    }
+    if tab.len() < 60 {
+        return Err(format!("only {} binding functions found in basic.rs's library! blocks", tab.len()));
+    }
+    out.push_str(&surface_table("Binding", &tab));
+    // every method of string.rs
+    struct M(Vec<(String, Vec<&'static str>)>, Option<String>);
+    impl<'ast> Visit<'ast> for M {
+        fn visit_item_impl(&mut self, i: &'ast syn::ItemImpl) {
+            if i.trait_.is_none() {
+                self.1 = Some(i.self_ty.to_token_stream().to_string().replace(' ', ""));
+                syn::visit::visit_item_impl(self, i);
+                self.1 = None;
+            }
+        }
+        fn visit_impl_item_fn(&mut self, f: &'ast syn::ImplItemFn) {
+            if let Some(t) = &self.1 {
+                self.0.push((ctor_name(t, &f.sig.ident.to_string()), surface_of(&f.block)));
+            }
+        }
+        fn visit_item_mod(&mut self, _m: &'ast syn::ItemMod) {} // skip `mod tests`
+    }
+    let mut m = M(vec![], None);
+    m.visit_file(&string);
+    out.push_str(&surface_table("StrFn", &m.0));
+    out.push_str(&footer("C10Builtins"));
+    Ok(out)
+}
